@@ -181,6 +181,7 @@ func prop(c Case) pbt.Outcome {
 	var sent []uint64
 	recv := make([][]uint64, len(c.Consumers))
 	d4, d5 := false, false
+	sameOffer := make([]bool, len(c.Consumers)) // the offer on the consumer's input was captured and valid has not fallen since
 	var fail *pbt.Failure
 	for tick := 0; tick < c.Ticks && fail == nil; tick++ {
 		pp := r.VM.Processors[0]
@@ -193,8 +194,11 @@ func prop(c Case) pbt.Outcome {
 		for i := range c.Consumers {
 			cp := r.VM.Processors[i+1]
 			prePcC[i] = int(cp.Pc)
-			if prePcC[i] == consR[i] && cp.DelayCounter == 0 && cp.InputsRecv[0] {
-				d4 = true // i2rw issued while the consumer's own recv of the previous read is still high
+			if !cp.InputsValid[0] {
+				sameOffer[i] = false
+			}
+			if prePcC[i] == consR[i] && cp.DelayCounter == 0 && cp.InputsRecv[0] && cp.InputsValid[0] && sameOffer[i] {
+				d4 = true // i2rw captures the SAME offer again: its own recv of the previous read is still high and valid never fell
 			}
 		}
 		if err := r.Step(); err != nil {
@@ -205,6 +209,7 @@ func prop(c Case) pbt.Outcome {
 			cp := r.VM.Processors[i+1]
 			if prePcC[i] == consR[i] && int(cp.Pc) == consR[i]+1 {
 				recv[i] = append(recv[i], gen.U64(cp.Registers[0]))
+				sameOffer[i] = true
 			}
 		}
 		if reg, atW := prodW[prePcP]; atW && int(pp.Pc) == prePcP+1 {
